@@ -179,6 +179,31 @@ def scale_case(case):
     return {"ok": True, "nt": len(set(w)) > 1, "ops": k, "out": "len%d" % len(w)}
 
 
+def scale_big_case(case):
+    """{'weights': [...], 'total': t}: large totals (10^4 .. 10^18) and long weight lists: integers summing exactly to the total, each within one of its exact proportional share"""
+    from orquestra.quantum.utils import scale_and_discretize
+    w, total = case["weights"], case["total"]
+    try:
+        got = scale_and_discretize(list(w), total)
+    except AssertionError as e:
+        # the library's own closing assertion: it noticed that its float arithmetic did not reach the total and refuses instead of returning a wrong list
+        return {"ok": False, "msg": "scale_and_discretize(%d weights, total=%d) raised AssertionError (%s) instead of returning integers summing to the total" % (len(w), total, e),
+                "sig": "scale:refuses-beyond-2^53" if total > 2 ** 53 else "scale:assertion"}
+    S = sum(F(x) for x in w)
+    bad = None
+    if len(got) != len(w) or any(int(g) != g or isinstance(g, bool) for g in got):
+        bad = "not a list of integers of the input length"
+    elif sum(int(g) for g in got) != total:
+        bad = "sum is off by %d" % (sum(int(g) for g in got) - total)
+    else:
+        worst = max(abs(F(int(g)) - F(x) * total / S) for g, x in zip(got, w))
+        if worst >= 1:
+            bad = "an entry is %s away from its proportional share" % float(worst)
+    if bad:
+        return {"ok": False, "msg": "scale_and_discretize(%s..., total=%d): %s" % (str(w)[:60], total, bad), "sig": "scale:big"}
+    return {"ok": True, "nt": len(set(w)) > 1, "out": "t%d" % len(str(total))}
+
+
 def key_tuple(k):
     """'01' -> (0, 1); '0,10' -> (0, 10) (outcomes of non-binary subsystems are written comma-separated)"""
     return tuple(int(x) for x in k.split(",")) if "," in k else tuple(int(c) for c in k)
@@ -253,7 +278,7 @@ def seam_validation_case(case):
     return {"ok": True, "nt": True, "ops": 5, "out": "real"}
 
 
-FUNCS = {"expand_kinds": expand_kinds_case, "expand_combine": expand_case, "batches": batch_case, "pipeline": pipeline_case, "scale": scale_case, "represent": represent_case, "represent_wide": represent_case, "represent_multidigit": represent_case,
+FUNCS = {"scale_big": scale_big_case, "expand_kinds": expand_kinds_case, "expand_combine": expand_case, "batches": batch_case, "pipeline": pipeline_case, "scale": scale_case, "represent": represent_case, "represent_wide": represent_case, "represent_multidigit": represent_case,
          "represent_real_rng": seam_validation_case}
 
 
@@ -304,6 +329,9 @@ def run(run):
     secs.append(Section("pipeline", P, pipeline_case, desc="expand -> split_into_batches -> reference runner -> combine"))
     Wt = [list(w) for k in range(1, 5) for w in itertools.product((1, 2, 3, 5, 0.5), repeat=k)]
     secs.append(Section("scale", [{"weights": w} for w in Wt], scale_case, desc="scale_and_discretize on every weight list x totals 0..16"))
+    WB = [[1, 2, 3], [0.1, 0.2, 0.7], [1e-9, 1, 1e9], [1] * 300, [i + 1 for i in range(1000)], [0.3, 0.3, 0.4], [1 / 3] * 3, [1] * 7, [0.1] * 10, [(i * 37) % 11 + 0.5 for i in range(257)], [2.5], [1e-150, 3e-150]]
+    secs.append(Section("scale_big", [{"weights": w_, "total": t_} for w_ in WB for t_ in (10 ** 4, 65536, 10 ** 6 + 1, 2 ** 31 + 7, 10 ** 9 + 1, 10 ** 12 + 3, 10 ** 15 + 7, 2 ** 53 + 1, 10 ** 18 + 1)], scale_big_case,
+                        desc="scale_and_discretize with totals 10^4 .. 10^18 on 12 weight lists (up to 1000 weights, ratios of 1e18)"))
     D = distributions(5) + (distributions3(2) if deep else [])
     Ns = range(1, 17) if deep else range(1, 13)
     bound = None if thorough else 2
